@@ -17,7 +17,6 @@ package internal
 import (
 	"errors"
 	"iter"
-	"maps"
 	"net/http"
 	"net/textproto"
 	"strconv"
@@ -115,7 +114,20 @@ func directivesSeq2(s string) iter.Seq2[string, string] {
 // parseDirectives parses a string of cache directives and returns a map
 // where the keys are the directive names and the values are the arguments.
 func parseDirectives(s string) map[string]string {
-	return maps.Collect(directivesSeq2(s))
+	directives := make(map[string]string)
+	for name, argument := range directivesSeq2(s) {
+		if _, duplicate := directives[name]; duplicate {
+			// RFC 9111 §4.2.1: of several occurrences the first one is used. The bare form of a
+			// directive with an optional field list is the more restrictive one and wins wherever
+			// it stands (no-cache, no-cache="Set-Cookie" is unqualified no-cache).
+			if argument == "" && (name == "no-cache" || name == "private") {
+				directives[name] = ""
+			}
+			continue
+		}
+		directives[name] = argument
+	}
+	return directives
 }
 
 func hasToken(d map[string]string, token string) bool {
